@@ -401,20 +401,49 @@ def fallback_search(res):
              sig='C11:fallback-root-search-always-raises')
 
 
+def other_quadrature_first():
+    """the very first transformations of the process are built with non-default quadrature settings (their own results are not looked
+    at): everything that follows uses the defaults and must not depend on what was built before"""
+    core.import_impl()
+    from scipy import stats
+    from ffpack import rpm
+    for kw in ({'quadDeg': 99, 'quadRange': 2.5}, {'quadDeg': 31, 'quadRange': 8}, {'quadDeg': 99, 'quadRange': 4.0}):
+        try:
+            rpm.NatafTransformation([stats.norm(), stats.lognorm(0.5)], [[1.0, 0.6], [0.6, 1.0]], **kw)
+        except Exception:  # noqa
+            pass
+
+
 def run(tier, seed):
     res = core.Result(PID, tier, seed)
     res.rule = ('eight marginal families with random parameters x dimension 1-4 x random positive-definite correlation matrices (dense, sparse with zero entries, or identity), parameters written positionally / by keyword '
                 'x random points; distinct by (marginals, correlation)')
     core.prove(res, PID, MODULES, clean=(tier == 'thorough'))
     n = 14 if tier == 'quick' else 400
-    explore(res, random.Random(seed), n)
-    same_family(res, random.Random(seed + 1))
-    sparse_corr(res)
-    high_correlation(res)
-    pdf_tails(res)
-    shifted_lognormal(res)
-    boundary_and_sampling(res, random.Random(seed + 2))
-    fallback_search(res)
+    other_quadrature_first()
+    # every stream uses admissible marginals and positive-definite correlation matrices only: an exception that escapes from one of
+    # them is a valid input rejected (or mishandled) by the implementation and is reported with the last constructor arguments
+    core.import_impl()
+    from unittest import mock
+    from ffpack import rpm
+    last = {}
+    orig_init = rpm.NatafTransformation.__init__
+
+    def spy(self, distObjs, corrMat, *a, **k):
+        try:
+            last['args'] = {'marginals': [(d.dist.name, list(d.args), dict(d.kwds)) for d in distObjs], 'corrMat': [list(map(float, r)) for r in corrMat],
+                            'more': [repr(a), repr(k)]}
+        except Exception:  # noqa
+            last['args'] = {'marginals': repr(distObjs)[:200], 'corrMat': repr(corrMat)[:200]}
+        return orig_init(self, distObjs, corrMat, *a, **k)
+    streams = [(explore, (res, random.Random(seed), n)), (same_family, (res, random.Random(seed + 1))), (sparse_corr, (res,)), (high_correlation, (res,)),
+               (pdf_tails, (res,)), (shifted_lognormal, (res,)), (boundary_and_sampling, (res, random.Random(seed + 2))), (fallback_search, (res,))]
+    with mock.patch.object(rpm.NatafTransformation, '__init__', spy):
+        for fn, args in streams:
+            try:
+                fn(*args)
+            except Exception as e:  # noqa
+                fail(res, 'valid problem raised %s: %s (stream %s)' % (type(e).__name__, str(e)[:80], fn.__name__), last.get('args'), None)
     res.traces = res.evaluations
     # executable Lean model of the transformation (Model/Nataf.lean, Model/Chol.lean) against the implementation
     import formmodel
